@@ -829,7 +829,7 @@ def update_file(remote, local, verbose=False):
     try:
         with urlopen(index_name) as index_url:
             index_fields = list(PackageFile(index_name, index_url))
-    except ParseError:
+    except (ParseError, UnicodeError):
         # FIXME: urllib does not raise a proper exception, so we parse
         # the error message.
         if verbose:
